@@ -248,6 +248,9 @@ Led(ts, left, i, rbp, m) ==
 ProjRhs(ts, i, p, m) ==
   LET k == K(ts, i) IN
   IF LedBp(k) < ProjStop THEN POk(Cur, i)
+  \* only a bracket-specifier may follow directly (the ABNF has no
+  \* expression "[" multi-select "]"; that needs a dot)
+  ELSE IF k = "lbracket" /\ ~(K(ts, i + 1) \in {"int", "colon"} \/ IsStarBracket(ts, i, m)) THEN PFail
   ELSE IF k \in {"lbracket", "filter"} THEN Expr(ts, i, p, m)
   ELSE IF k = "dot" THEN DotRhs(ts, i + 1, p, m)
   ELSE PFail
@@ -255,7 +258,8 @@ ProjRhs(ts, i, p, m) ==
 \* what may follow a "." ; i is the token after the dot
 DotRhs(ts, i, p, m) ==
   LET k == K(ts, i) IN
-  IF k \in {"id", "qid", "star"} THEN Expr(ts, i, p, m)
+  IF k = "star" /\ ts[i].sp /\ ~m.ws THEN PFail       \* ". *": blank inside the composite
+  ELSE IF k \in {"id", "qid", "star"} THEN Expr(ts, i, p, m)
   ELSE IF k = "lbracket"
        THEN LET r == MSListRest(ts, i + 1, <<>>, m) IN
             IF ~r.ok THEN PFail ELSE IF m.ms THEN r ELSE Led(ts, r.n, r.i, p, m)
@@ -275,7 +279,8 @@ MSListRest(ts, i, acc, m) ==
 \* key : e, ... }
 MSHashRest(ts, i, acc, m) ==
   LET k == K(ts, i)
-      key == IF k = "id" THEN [ok |-> TRUE, s |-> ts[i].cp]
+      key == IF k = "id" /\ m.kw /\ (IsKw(ts[i], <<108,101,116>>) \/ IsKw(ts[i], <<105,110>>)) THEN [ok |-> FALSE, s |-> <<>>]
+             ELSE IF k = "id" THEN [ok |-> TRUE, s |-> ts[i].cp]
              ELSE IF k = "qid" THEN DecQuoted(ts[i].cp, m.len)
              ELSE [ok |-> FALSE, s |-> <<>>]
   IN IF ~key.ok \/ K(ts, i + 1) # "colon" THEN PFail
